@@ -30,19 +30,23 @@ def SimplifySound : Prop := ∀ e e', simplifyExpr e = .ok e' → Preserves opq 
 
 /-! ## generated-table obligations (G2, G4): what the flip and re-association steps need -/
 
-/-- operators flagged commutative are exactly these (each is semantically commutative, see `binOp_comm`) -/
-theorem G2_commutative_flags : (Gen.binOps.filter (·.comm)).map (·.token) = ["+", "*", "iff", "or", "and", "=", "!="] := by decide
+/-- operators flagged commutative are exactly these (each is semantically commutative, see `binOp_comm`); stated per member, so
+    that the order of the enum is irrelevant -/
+theorem G2_commutative_flags : ∀ d ∈ Gen.binOps, (d.comm = true ↔ d.token ∈ ["+", "*", "iff", "or", "and", "=", "!="]) := by decide
 
 /-- operators flagged associative (re-associated together with their commutativity) are exactly these -/
-theorem G2_associative_flags : (Gen.binOps.filter (·.assoc)).map (·.token) = ["+", "*", "iff", "or", "and"] := by decide
+theorem G2_associative_flags : ∀ d ∈ Gen.binOps, (d.assoc = true ↔ d.token ∈ ["+", "*", "iff", "or", "and"]) := by decide
 
 /-- every associative operator is also flagged commutative (the re-association needs both) -/
 theorem G2_assoc_implies_comm : ∀ d ∈ Gen.binOps, d.assoc = true → d.comm = true := by decide
 
 /-- `INVERSE_OPERATORS`: self-inverse for the commutative ones, `<`/`>` and `<=`/`>=` swapped -/
-theorem G4_inverse_table : Gen.inverseOps =
-    [("+", "+"), ("*", "*"), ("and", "and"), ("or", "or"), ("iff", "iff"), ("=", "="), ("!=", "!="),
-     ("<", ">"), (">", "<"), ("<=", ">="), (">=", "<=")] := by decide
+theorem G4_inverse_table :
+    (∀ p ∈ Gen.inverseOps, p ∈ [("+", "+"), ("*", "*"), ("and", "and"), ("or", "or"), ("iff", "iff"), ("=", "="), ("!=", "!="),
+       ("<", ">"), (">", "<"), ("<=", ">="), (">=", "<=")]) ∧
+    (∀ p ∈ [("+", "+"), ("*", "*"), ("and", "and"), ("or", "or"), ("iff", "iff"), ("=", "="), ("!=", "!="),
+       ("<", ">"), (">", "<"), ("<=", ">="), (">=", "<=")], p ∈ Gen.inverseOps) ∧
+    (Gen.inverseOps.map (·.1)).Nodup := by decide
 
 /-- semantic content of the inverse table for the comparison operators: `a < b` is `b > a` (errors collapsed) -/
 theorem binOp_inverse_lt (a b : Value) : (binOp "<" a b).toOption = (binOp ">" b a).toOption := by
